@@ -346,15 +346,16 @@ def genPgCase (idx : Nat) : Gen Case := do
     let f ← pick [Fn.ident, Fn.single, Fn.arr1, Fn.const 0]
     pure (mkPgCase s!"C07-p{idx}" (if op == 0 then "max" else "min") (.reduce (litEx s) op f) false)
 
-def mkCase (id stratum : String) (e : Ex) : Case :=
+def mkCase (id stratum : String) (e : Ex) (rep : Nat := 1) : Case :=
   let o := Impl.obs (Impl.evalUnder (fun l => l) e)
   let cls := clsOf e
+  let pl := if rep ≤ 1 then [e.src] else [e.src, "x" ++ toString rep]
   if tiesAt e then
     -- tied orderby keys: documented as order-dependent; only "no crash" is demanded and the case is not
     -- compared across processes
-    { id := id, cls := cls, kind := "run", stratum := stratum ++ "/ties-exempt", model := o, spec := "!panic", payload := [e.src] }
+    { id := id, cls := cls, kind := "run", stratum := stratum ++ "/ties-exempt", model := o, spec := "!panic", payload := pl }
   else
-    { id := id, cls := cls, kind := "run", stratum := stratum, model := o, spec := o, payload := [e.src] }
+    { id := id, cls := cls, kind := "run", stratum := stratum, model := o, spec := o, payload := pl }
 
 def exName : Ex → String
   | .lit _ _ => "lit" | .union _ _ => "union" | .inter _ _ => "inter" | .diff _ _ => "diff" | .map _ _ => "map"
@@ -379,12 +380,49 @@ def corpus : List Case :=
       model := "", spec := "{(@neg:(a:1)),-2}\n{(@neg: (a: 1)), -2}\n{(@neg: (a: 1)), -2}\n",
       payload := ["{(@: 0, @char: 99), 2, (a: 1)} => -."] } ]
 
+/-! ### union sets over buckets of every kind: the printed form merges the buckets in the C06 order
+
+`{1, 'x'} | {'b': 1, 'a': 2}`: the members of a dictionary, a relation, an array with holes, a byte array, a string are
+handed to the set builder next to generic members; the result is a `UnionSet` whose printed text (and CLI output) walks all
+members in the C06 order whatever order each bucket enumerates in (a dictionary: insertion order up to 8 entries, hash
+order beyond). -/
+def genBucketUnionCase (idx : Nat) : Gen Case := do
+  let i ← randInt 0 3
+  let small : Ex := litEx (setVal ((← shuffle [ofLitVal (.num i), ofLitVal (.str 0 [120]), ofLitVal (.tup [("a", .num i)]),
+    ofLitVal (.set [.num 1])]).take ((← rand 3) + 1)))
+  -- a dictionary with 2–3 entries in NON-sorted literal order, or with 12–16 entries
+  let bigDict ← chance 1 2
+  let nd ← rand 5
+  let dictEx : Ex ←
+    if bigDict then do
+      let ks := (← shuffle ((List.range 12).map (fun k => Lit.str 0 [97 + k]) ++ (List.range 8).map (fun k => Lit.num (Int.ofNat k)))).take (nd + 12)
+      pure (litEx (ofLitVal (.dict (ks.zipIdx.map (fun (k, j) => (k, Lit.num (Int.ofNat (j % 3))))))))
+    else do
+      let kvs : List (Lit × Lit) := [(.str 0 [99], .num 1), (.str 0 [98], .num 2), (.str 0 [97], .num i)]
+      pure (litEx (ofLitVal (.dict (kvs.drop (← rand 2)))))
+  let relEx : Ex := litEx (ofLitVal (.rel ["a", "b"] [[.num 2, .num i], [.num 1, .num 2], [.num 0, .num 3]]))
+  let arrEx : Ex := litEx (ofLitVal (.arr (← randInt 0 1) [some (.num 2), none, some (.num i), none, some (.str 0 [97])]))
+  let bytesEx : Ex := litEx (ofLitVal (.bytes (← randInt 0 1) [3, 1, 2]))
+  let strEx : Ex := litEx (ofLitVal (.str 1 [99, 97, 98]))
+  let others ← shuffle [relEx, arrEx, bytesEx, strEx]
+  let k ← rand 3
+  let parts ← shuffle ([dictEx] ++ others.take k)
+  let e := parts.foldl (fun acc p => Ex.union acc p) small
+  let top ← rand 6
+  let e := match top with
+    | 0 => Ex.with_ e (litEx (ofLitVal (.num 9)))
+    | 1 => Ex.map e .ident
+    | 2 => Ex.single e
+    | _ => e
+  pure (mkCase s!"C07-{idx}" s!"bucket-union/{if bigDict then "bigdict" else "dict"}/{k}" e 2)
+
 def gen (seed n : Nat) (_thorough : Bool) : List Case := Id.run do
   let mut out := ({ id := "C07-seeds", cls := "good", kind := "seeds", stratum := "seeds", model := "", spec := "!panic",
                     payload := [] } : Case) :: corpus.reverse
   for i in [0:n] do
     let (c, _) := (do
       if i % 3 == 1 then genPgCase i
+      else if i % 12 == 0 then genBucketUnionCase i
       else
         let big ← chance 1 5
         let e ← if big then genBigLit else genEx (if i % 3 == 0 then 2 else 1)
